@@ -730,7 +730,7 @@ class Gen(object):
             bs = ['d', 'i18n:singular', [], sing]
             bp = ['d', 'i18n:plural', [], plur]
         # white space around the branches, sometimes none (also none after the last branch of the
-        # element form: ChooseDirective.extract as repaired, fix 69f26ed)
+        # element form: ChooseDirective.extract as repaired, fix b01357f)
         kids = [k for k in [ws(), bs, ws(), bp, ws()] if k[0] != 't' or r.random() < 0.85]
         pv = ', '.join(params)
         if r.random() < 0.8:
@@ -740,7 +740,7 @@ class Gen(object):
         return ['d', 'i18n:choose', [['numeral', nv], ['params', pv]], kids]
 
     def plain_elem(self, depth, excl):
-        # gettext calls in the attributes of excluded elements are extracted (fix 3756726)
+        # gettext calls in the attributes of excluded elements are extracted (fix 3dc8094)
         attrs = self.attrs()
         tag = self.rng.choice(TAGS)
         ex = excl or self.has_lang(attrs) or tag in self.config['ignore_tags']
